@@ -24,7 +24,7 @@ class C14(Harness):
     pid = "C14"
     labels = (
         "padding", "truncation", "paa-frame-means", "tabularizer", "column-concatenator", "interval-segmenter", "sliding-window-segmenter",
-        "interval-features", "row-transformer", "slope", "cosine", "imputer-rule", "rows-in-input-order", "requested-length", "reject-iff-invalid",
+        "interval-features", "row-transformer", "slope", "cosine", "column-wise-adaptor", "imputer-rule", "rows-in-input-order", "requested-length", "reject-iff-invalid",
     )
     stubs = (
         "panel cell values are symbolic tokens (z3 reals) in object arrays; the transformers run on the real numpy / pandas (concrete world with token-capable np.zeros/full/empty)",
@@ -41,7 +41,7 @@ class C14(Harness):
         return {"instances": "1..2" if q else "1..3", "columns": "1..2", "series_length": "2..%d (unequal lengths for padding / truncation)" % (5 if q else 6), "paa_intervals": "1..length"}
 
     def cells(self, tier):
-        names = ["padding", "truncation", "paa", "tabularizer", "concatenator", "interval-int", "interval-array", "sliding", "features", "row", "slope", "cosine"]
+        names = ["padding", "truncation", "paa", "tabularizer", "concatenator", "interval-int", "interval-array", "sliding", "features", "row", "slope", "cosine", "adaptor"]
         out = [{"name": n, "kind": n, "cost": 2} for n in names]
         for m in ("ffill", "bfill", "constant", "mean", "median", "linear"):
             out.append({"name": "imputer-" + m, "kind": "imputer", "method": m, "cost": 1})
@@ -84,12 +84,14 @@ class C14(Harness):
                 inp["pad"] = choice("pad", 0, 5)  # 0 = None
                 inp["fill"] = ctx.fresh_real("fill")
             else:
-                inp["lower"] = choice("lower", 0, 3)  # 0 = None
+                inp["lower"] = choice("lower", -1, 3)  # -1 = None
                 inp["upper"] = choice("upper", 0, 4)  # 0 = None
-                if inp["upper"] and inp["upper"] <= (inp["lower"] or 0):
+                if inp["upper"] and inp["upper"] <= max(inp["lower"], 0):
                     ctx.assume(False)
-                if inp["upper"] and not inp["lower"]:
+                if inp["upper"] and inp["lower"] < 0:
                     ctx.assume(False)
+                if inp["lower"] == 0 and not inp["upper"]:
+                    ctx.assume(False)  # an empty prefix is not a meaningful request
                 if inp["upper"] and inp["upper"] > min(lens):
                     ctx.assume(False)  # the requested range must exist in every series
             return inp
@@ -103,7 +105,7 @@ class C14(Harness):
             inp["value"] = ctx.fresh_real("value")
             return inp
         ni = choice("ni", 1, 2 if q else 3)
-        nc = 1 if k in ("interval-int", "interval-array", "sliding", "features", "slope", "paa") else choice("nc", 1, 2)
+        nc = 1 if k in ("interval-int", "interval-array", "sliding", "features", "slope", "paa", "adaptor") else choice("nc", 1, 2)
         Ln = choice("L", 2 if k != "features" else 4, Lmax)
         inp["x"] = [[fresh_reals(ctx, "x%d_%d_" % (i, j), Ln) for j in range(nc)] for i in range(ni)]
         if k == "paa":
@@ -173,7 +175,7 @@ class C14(Harness):
             return {"rejected": False, "cells": cells_of(r)}
         if k == "truncation":
             TT = W.load(PANEL + ".truncation").TruncationTransformer
-            t = TT(lower=inp["lower"] or None, upper=inp["upper"] or None)
+            t = TT(lower=None if inp["lower"] < 0 else inp["lower"], upper=inp["upper"] or None)
             try:
                 r = t.fit(X).transform(X)
             except ValueError:
@@ -238,6 +240,26 @@ class C14(Harness):
                     a[t_] = v
                 vals.append(S(np.asarray(slope(a)).ravel()[0]))
             return {"slopes": vals}
+        if k == "adaptor":
+            from sklearn.base import BaseEstimator, TransformerMixin
+
+            class Sk(TransformerMixin, BaseEstimator):
+                def fit(self, Xa, y=None):
+                    self.ref_ = [Xa[0, j] for j in range(Xa.shape[1])]
+                    return self
+
+                def transform(self, Xa):
+                    a = np.empty(Xa.shape, dtype=object if sym else float)
+                    for idx in np.ndindex(Xa.shape):
+                        a[idx] = W.uf("colt", [Xa[idx], self.ref_[idx[1]]], "rr>r")
+                    return a
+
+            AD = W.load("sktime.transformations.series.adapt").TabularToSeriesAdaptor
+            ztrain = pd.Series(list(X.iloc[0, 0]), dtype=object if sym else float)
+            znew = pd.Series(list(X.iloc[-1, 0])[::-1], dtype=object if sym else float)
+            t = AD(Sk()).fit(ztrain)
+            r = t.transform(znew)
+            return {"vals": [S(v) for v in list(r)], "idx": [S(v) for v in r.index]}
         if k == "cosine":
             CT = W.load("sktime.transformations.series.cos").CosineTransformer
             z = X.iloc[0, 0]
@@ -315,7 +337,7 @@ class C14(Harness):
             return
         if k == "truncation":
             minlen = min(len(x[i][j]) for i in range(ni) for j in range(nc))
-            lower = inp["lower"] or minlen
+            lower = minlen if inp["lower"] < 0 else inp["lower"]
             upper = inp["upper"] or None
             invalid = minlen < lower
             if out["rejected"] or invalid:
@@ -469,6 +491,12 @@ class C14(Harness):
                 mean = sum(seg) / n
                 want = sum((t - tbar) * (v - mean) for t, v in zip(ts, seg)) / sum((t - tbar) * (t - tbar) for t in ts)
                 self._eq_tol(P, "slope", out["slopes"][i], want, seg, exact=(n & (n - 1) == 0))
+            return
+        if k == "adaptor":
+            P.check("rows-in-input-order", out["idx"] == list(range(Ln)) and len(out["vals"]) == Ln)
+            ref = x[0][0][0]  # learnt from the series passed to fit, not from the one being transformed
+            for a, v in zip(out["vals"], list(x[-1][0])[::-1]):
+                P.eq("column-wise-adaptor", a, W.uf("colt", [v, ref], "rr>r"))
             return
         if k == "cosine":
             P.check("rows-in-input-order", out["idx"] == list(range(Ln)) and len(out["vals"]) == Ln)
